@@ -328,7 +328,7 @@ class World:
                 cases.append((Val(1), Val(self.sent[('alt', l)])))
             return Switch(cases, **dflt), t
         if k == 'checkspec':
-            return Check(child), t
+            return Check(child, instance_of=object), t
         raise ValueError('unknown context %r' % (c,))
 
     # ---- running and projecting ---------------------------------------------------------------
